@@ -35,6 +35,16 @@ Theorem accept_iff_valid_refuted_prefix :
 Proof. exact accept_iff_valid_refuted_prefix_proof. Qed.
 Print Assumptions accept_iff_valid_refuted_prefix.
 
+(* (3') The property itself is still refuted on the CURRENT code (after a156714): the model of the
+   two steps that decide the witness -- the repaired merge step and the validator's
+   FieldSelectionMerging rule, both tied to the Go code by correspondence (corr:C04/merge,
+   corr:C04/overlap) -- accepts { a(x:1){b} a(x:2){c} }, which the specification rejects (the rule
+   never compares names or arguments of fields whose type is not a scalar). *)
+Theorem accept_iff_valid_refuted :
+  exists S d, go_overlap_ok S (merge_fields d) = true /\ spec_valid_b S d None = false.
+Proof. exact accept_iff_valid_refuted_proof. Qed.
+Print Assumptions accept_iff_valid_refuted.
+
 (* (4) The repaired merge step merges two fields only when their argument lists are equal, and
    leaves the witness untouched (so the conflict reaches the validator). *)
 Theorem merge_fixed_requires_equal_arguments : forall a n args dirs ss a' n' args' dirs' ss',
